@@ -289,7 +289,9 @@ class MoveMemrefDims(RewritePattern):
                 dim_op.results[0].replace_all_uses_with(new_dim_op.results[0])
             for_op = find_parent_for_loop(dim_op)
 
-            if is_in_loop(new_dim_op):
+            # only an op that lives in the loop being left is moved: an existing op found outside of it
+            # already dominates the loop, and moving it could place it after its other uses
+            if is_in_loop(new_dim_op) and not before_loop(new_dim_op):
                 new_dim_op.detach()
 
             assert for_op is not None
